@@ -127,16 +127,19 @@ async fn run_tcp_system_inner(plan: &Plan, atomic_handshake: bool, via_port: u16
 
     // applications that begin a local handshake and leave it unfinished: the bytes are written, then the connection is closed
     // or simply held. The client gives such a connection up at its 30 s handshake deadline at the latest.
-    let abandoned: Vec<(Vec<u8>, bool)> = plan.extra.get("abandoned_handshakes").and_then(|v| serde_json::from_value(v.clone()).ok()).unwrap_or_default();
+    // (third element: the peer is not a local application but someone who connects to the *server's* port, sends the beginning
+    // of a carrier / protocol handshake and closes)
+    let abandoned: Vec<(Vec<u8>, bool, bool)> = plan.extra.get("abandoned_handshakes").and_then(|v| serde_json::from_value(v.clone()).ok()).unwrap_or_default();
     let mut abandoned_guards = Vec::new();
-    for (bytes, close) in abandoned.iter().cloned() {
+    for (bytes, close, to_server) in abandoned.iter().cloned() {
         abandoned_guards.push(spawn_scoped(async move {
             use tokio::io::AsyncWriteExt;
-            let Ok(mut s) = octo_squirrel::verif::net::TcpStream::connect(client_addr()).await else { return };
+            let Ok(mut s) = octo_squirrel::verif::net::TcpStream::connect(if to_server { SocketAddr::new(IpAddr::V4(Ipv4Addr::LOCALHOST), via_port) } else { client_addr() }).await else { return };
             s.set_own_styles(0, 0);
-            let _ = s.write_all(&bytes).await;
+            // (through a tiny window the bytes may not all go out: the peer does not wait for that)
+            let _ = tokio::time::timeout(Duration::from_secs(2), s.write_all(&bytes)).await;
             if close {
-                let _ = s.shutdown().await;
+                let _ = tokio::time::timeout(Duration::from_secs(1), s.shutdown()).await;
                 // (a closed application no longer reads: the descriptor goes after a moment)
                 tokio::time::sleep(Duration::from_millis(200)).await;
                 drop(s);
